@@ -17,7 +17,7 @@ EXPLANATION = (
     "builder and path-extension detection."
     " (R5) configuration plumbing: every field of every workspace `Builder` struct is read by some function other than a derived trait impl, so an option stored by a setter (e.g. the reference sequence repository of the generic alignment reader) cannot be silently ignored."
     " (R6) VCF -> BCF keeps the keys: the header text order of INFO / FILTER / FORMAT equals the order StringMaps::try_from numbers the dictionary in (shared with C10.R10)."
-    " (R7) detection window: no builder of the generic readers constructs its detection BufReader with a constant capacity below the default 8 KiB at which known finding F6 was triaged. (R8) dispatch agreement: every arm of a noodles-util wrapper's trait method forwards to the same-named method.")
+    " (R7) detection window: no builder of the generic readers constructs its detection BufReader with a constant capacity below the default 8 KiB at which known finding F6 was triaged. (R8) dispatch agreement: every arm of a noodles-util wrapper's trait method forwards to the same-named method. (R9) the BGZF arm of detect_format treats a stream shorter than the BAM magic number as not-BAM (genuine defect F59, repaired).")
 ASSUMPTIONS = ["the inner enum variant names (Bam/BamRaw/SamGz/...) identify (format, compression) — checked against the constructor each arm calls"]
 NOT_DECIDED = ["record preservation across conversions at the SAM/VCF data-model level", "detection from a path extension vs content"]
 
@@ -167,6 +167,24 @@ def run(ctx):
     ctx.rule("C20.R8", "A7 dispatch agreement: every arm of a generic wrapper's trait method forwards to the SAME-named method of that trait on "
                        "the wrapped format type (a copy/paste slip in one arm answers one accessor with another field, for one format only)")
     forwarding_rule(ctx, "C20.R8", 30)
+
+    ctx.rule("C20.R9", "the generic alignment reader opens everything the generic writer emits, also the empty file: the BGZF arm of "
+                       "detect_format treats an inflated stream SHORTER than the BAM magic number as 'not BAM' (its read_exact's error is "
+                       "compared with UnexpectedEof), like the uncompressed arm's `get(..4)`; genuine defect F59, repaired")
+    f9 = ctx.anchor("C20.R9", "noodles_util::alignment::io::reader::builder::detect_format")
+    if f9 is not None:
+        ctx.saw_fn(f9)
+        rx9 = [b for b, c in f9.calls() if re.search(r"::read_exact$", c.get("f") or "")]
+        cmp9 = [bi for bi, blk in enumerate(f9.blocks) if not blk.get("cu") for st in blk["s"]
+                if st[0] == "=" and st[2][0] == "agg" and st[2][1] == "adt" and st[2][2].endswith("io::error::ErrorKind") and st[2][3] == "UnexpectedEof"]
+        if not rx9:
+            ctx.ok("C20.R9", f9.key, "no read_exact in the sniffing code (a length-checked view cannot fail at EOF)", f9.loc())
+        elif cmp9 and all(any(c in C.reachable(f9, b) for c in cmp9) for b in rx9):
+            ctx.ok("C20.R9", f9.key, "the sniffing read_exact's error is compared with UnexpectedEof", f9.loc(rx9[0]))
+        else:
+            ctx.violation("C20.R9", "C20.R9/short-stream-fails-detection/" + f9.key,
+                          "detect_format propagates the UnexpectedEof of its sniffing read_exact: a BGZF stream that inflates to fewer bytes than "
+                          "the BAM magic number (the generic writer's empty SAM.gz) cannot be opened by the generic reader", f9.loc(rx9[0]))
 
     ctx.rule("C20.R7", "detection window: the generic readers look at ONE fill_buf window (known finding F6, triaged at BufReader's default 8 KiB): "
                        "no builder constructs its detection reader with a smaller constant capacity")
